@@ -36,14 +36,14 @@ def cpython_mro(names, bases):
             return made[n]
         if n in stack:
             raise TypeError("cycle")
-        bs = tuple(build(b, stack + (n,)) for b in bases[n])
+        bs = tuple(Exception if b == "Exception" else build(b, stack + (n,)) for b in bases[n])
         made[n] = type(n, bs or (object,), {})
         return made[n]
     out = {}
     for n in names:
         try:
             c = build(n)
-            out[n] = [k.__name__ for k in c.__mro__[1:-1]]
+            out[n] = [k.__name__ for k in c.__mro__[1:-1] if k.__name__ in names]     # bases Griffe cannot resolve statically (builtins) are left out
         except TypeError:
             out[n] = None
     return out
@@ -53,8 +53,13 @@ def members_for(names, member_choice):
     return {n: member_choice[i] for i, n in enumerate(names)}
 
 
-def check(names, combo, members):
+def check(names, combo, members, foreign_pos=None):
     bases = dict(zip(names, combo))
+    if foreign_pos is not None:
+        # the last class also derives from a class that is not in the loaded tree (a builtin), written at the given position among its bases
+        last = list(bases[names[-1]])
+        last.insert(min(foreign_pos, len(last)), "Exception")
+        bases[names[-1]] = tuple(last)
     exp = cpython_mro(names, bases)
     # a class whose (transitive) bases cannot be linearised is itself uncomputable for CPython
     src = []
@@ -202,6 +207,20 @@ def sweep(n, with_members, budget_s=200):
             members = {nm: (("x",) if mask >> i & 1 else ()) for i, nm in enumerate(names)}
             count += 1
             pr, src = check(names, combo, members)
+            if pr:
+                bad.append({"source": src, "problems": pr[:3], "signature": "hierarchy:" + src})
+                break
+    # a base that cannot be resolved is skipped and only skipped: the bases around it still count
+    names3, combos3 = hierarchies(3)
+    for combo in combos3:
+        if time.time() - t0 > budget_s * 1.3 or len(bad) >= 5:
+            break
+        if not combo[-1]:
+            continue
+        for pos in range(len(combo[-1]) + 1):
+            members = {nm: ("x",) if i != 2 else () for i, nm in enumerate(names3)}
+            count += 1
+            pr, src = check(names3, combo, members, foreign_pos=pos)
             if pr:
                 bad.append({"source": src, "problems": pr[:3], "signature": "hierarchy:" + src})
                 break
